@@ -373,9 +373,9 @@ func execC16(p *drv.Plan) *Out {
 func init() {
 	Register(&Check{ID: "C16", Level: "exploration", Engine: "drv", QuickRuns: 1500, ThoroughS: 480, Workers: 12,
 		Components: map[string]string{
-			"legacy database":                  "produced by the real legacy library (iavl v0.20.0 on cometbft-db MemDB) in the separate legacygen binary",
+			"legacy database":                      "produced by the real legacy library (iavl v0.20.0 on cometbft-db MemDB) in the separate legacygen binary",
 			"current tree/nodedb/pruning/rollback": "real, on the simulated disk loaded with the raw legacy dump",
-			"oracle": "contents and hashes the legacy library itself reported (R4); R1/R2 replay, confirmed against R4 on the legacy part before being trusted for the new versions",
+			"oracle":                               "contents and hashes the legacy library itself reported (R4); R1/R2 replay, confirmed against R4 on the legacy part before being trusted for the new versions",
 		},
 		Assumptions: []string{
 			"a DeleteVersionsTo request below the legacy/new boundary may be deferred by the library; the statement only demands that versions meant to remain are preserved, so versions <= n are simply not judged afterwards",
